@@ -3,7 +3,7 @@
 set -e
 cd "$(dirname "$0")"
 export CARGO_NET_OFFLINE=true
-python3 tools/gen_table.py /repo coq/gen
+python3 tools/gen_table.py "${VERIF_REPO:-/repo}" coq/gen
 python3 tools/gen_src.py || echo "setup: source translator refused the current mz.rs (the differential tie remains)"
 python3 tools/gen_poisson.py || echo "setup: source translator refused the current poisson.rs (the differential tie remains)"
 python3 tools/gen_conv.py || echo "setup: source translator refused the current convolution.rs (the differential tie remains)"
